@@ -521,6 +521,8 @@ package server
 //@   ensures [C13:empty-uri-rejected] uri == "" ==> ret2 != nil
 //@   ensures [C05:id-lock-released] $held == old($held)
 //@   ensures ret2 == nil ==> ret0 >= 0
+//@   at call Get#1 before
+//@     assert [C13:existing-mapping-looked-up-in-the-shared-id-transaction-so-ids-assigned-but-not-yet-committed-are-seen] $arg0 == s.idtxn && s.idtxn != nil && encBE16(key, 0) == URIToIDIndexID
 //@   at call Next#1
 //@     ghost seqG := $result0
 //@   at call Set#1 before
